@@ -9,6 +9,39 @@ NOTE_COMMON = ("Trusted: Lean 4.33 kernel; axioms ⊆ {propext, Classical.choice
                "implementation by differential execution (sampled), not by proof. ")
 
 CLAIMED = {
+ "C05": dict(
+   text=("Lean model of the whole SCC reader state machine (doubling memory, position tracker, three buffers, pop-on queue, timing-correcting stash, "
+         "italics passes, caption splitting) over code tables regenerated from scc/constants.py. Theorems: the italics passes yield, for EVERY instruction "
+         "list, alternating on/off switches that start with on and are closed at the end (formatItalics_balanced, by invariants through the five passes), "
+         "(row,col) maps linearly and strictly monotonically into the 10-90% x 5-95% safe area (layout_linear_safe, layout_strictly_monotone), and whole-table "
+         "facts by kernel evaluation: every PAC addresses row 1-15 / column 0,4..28, all 15x8 addresses exist, tab offsets are 1..3, the code tables are "
+         "pairwise disjoint. The model agrees with the implementation on exhaustive PAC x tab-offset x doubling and per-code programs and on random rich "
+         "pop-on programs; the implementation is compared with a reference CEA-608 screen reading built from the standard's formulas."),
+   ref="§3 C05", technique="Lean 4 proof (pass invariants, decide +kernel over generated tables, linarith) + state-machine correspondence + reference decoder oracle",
+   note=NOTE_COMMON + "The refinement theorem decode_encode (model = reference reading for every program) is NOT proved: that link is the differential comparison. "
+        "Well-formedness as calibrated in DESIGN §3 C05 (each addressed row shows a non-blank character; no identical special/extended codes adjacent in an un-doubled stream; rows fit 32 columns); simulate_roll_up is not modelled."),
+ "C06": dict(
+   text=("Same reader model, timing part, with exact rational times. Theorems: reading is rejected with the timing error iff some caption would be shown for "
+         "0 < d < 0.05 s (flash_rejected_iff), a never-cleared final caption gets start+4 s and ended captions are untouched (tail4s_last, tail4s_keeps_ended), "
+         "instants never go below zero for any offset (timeOf_floor_zero), the previous batch is closed at the new start exactly when it has no end or the gap is "
+         "< 5 frames + 1 us (store_joins_iff); the frame duration 1001000/30 us is regenerated and pinned. Correspondence and an independent timing denotation "
+         "(EOC instant, next EDM/EOC, joining, tail, flash) on programs with drop/non-drop timecodes, doubling, inline/separate/absent erase commands, filler gaps of 0-7 frames, offsets."),
+   ref="§3 C06", technique="Lean 4 proof over the reader model + differential correspondence + independent timing oracle",
+   note=NOTE_COMMON + "Implementation times are floats: compared within 2^-10 us. At a gap of exactly five frames (within 1 us) either reading is accepted; an end instant floored to exactly 0 is outside the domain (collides with the 0 = 'no end yet' encoding)."),
+ "C15": dict(
+   text=("Lean theorem scan_raises_iff_long_line: for every reader end state, the line-length error is raised iff some stored caption has a line longer than 32 "
+         "characters — independent of how captions share start keys and of their order (by an invariant over the dict-building fold, scan_collects_all; "
+         "scan_keys_nodup). Correspondence and oracle on all three modes, rows of 0-40 characters, every long/short pattern over up to four same-start captions."),
+   ref="§3 C15", technique="Lean 4 proof (fold invariant over the insertion-ordered dict) + correspondence + exhaustive small patterns",
+   note=NOTE_COMMON + "The key printed in the message is format_start() of a float time and may differ by one millisecond from the exact model (normalised in the comparison)."),
+ "C16": dict(
+   text=("Lean theorems: splitting a formatted instruction list into captions keeps every character exactly once and in order (toCaps_conserves_text), retiming "
+         "(correct_last_timing / end back-filling) changes times only (setEnd_preserves_nodes, correctLast_only_times). The full roll-up / paint-on behaviour "
+         "(mode switches, CR, RDC, implicit flush) is in the executable reader model, compared with the implementation and with the conservation / ordering / "
+         "contiguity oracle on random programs (depths 2-4, row addresses, doubling, drop/non-drop, gaps)."),
+   ref="§3 C16", technique="Lean 4 proof of the conservation lemmas + state-machine correspondence + conservation/contiguity oracle",
+   note=NOTE_COMMON + "Conservation through the whole roll-up state machine (buffer to stash across CR/flush) is not proved end-to-end; simulate_roll_up=True is outside the model."),
+
  "C03": dict(
    text=("Lean theorems for every string: decoding saxutils-escaped text with the predefined XML references returns the string (unescape_escape / "
          "xmlUnescape_escape, fuel-bounded single-pass decoder), escaped text contains neither '<' nor '>' so it cannot open or close markup "
